@@ -5,6 +5,8 @@ to the outputs of the real policy compiler.
   J compiled   <ctx[:descriptor kind]> <policy> <ast> <ty|ext of every node, pre-order, `;`>
   J compiledtr <entry> <policy> <internal key id|UNSPENDABLE> <leaf;…|-> <annotations `;;` per leaf|->
   J reparse    <target> <policy> <printed output> <verdict computed by the harness>
+  J compiles   <ctx> <policy> <Ok | Err:kind | PANIC>       (small sane policies must compile)
+  J trlift     <entry> <policy> <unspendable key id | -> <library's lift of the descriptor | ERR:kind>
   C sane       <ctx> <ast>                                  (model of `validate(&Ctx::SANE)`)
 -/
 import MsVerif.Driver.OpsMs
@@ -122,6 +124,16 @@ def opsCompile (t : Tables) (kind op : String) (args : List String) : Option Str
     judgeCompiledTr t entry policy internal leaves anns
   | "J", "reparse", [_target, _policy, _printed, verdict] =>
     some (if verdict == "same/sane" then "ok" else s!"bad:{verdict}")
+  | "J", "compiles", [_ctx, policy, outcome] => do
+    let P ← PolicyOps.parseCPolicy policy
+    pure (if mustCompile P && outcome != "Ok" then s!"bad:small-sane-policy-did-not-compile({outcome})" else "ok")
+  | "J", "trlift", [_entry, policy, unsp, lifted] => do
+    let P ← PolicyOps.parseCPolicy policy
+    let u : Option Nat ← (if unsp == "-" then some none else unsp.toNat?.map some)
+    -- a compiled policy passed `check_timelocks`; its descriptor must be liftable
+    if lifted.startsWith "ERR" then pure s!"bad:compiled-descriptor-does-not-lift({lifted})" else
+    let q ← PolicyOps.parsePolicy lifted
+    pure (if trLiftOk u P q then "ok" else "bad:lift-of-compiled-tr-differs-from-policy")
   | "C", "sane", [ctx, ast] => do
     let ctx ← parseCtx ctx
     let m ← parseAst ast
